@@ -5,7 +5,7 @@ import itertools
 
 from hypothesis import strategies as st
 
-from .. import cases, common, env, oracles, preds, refmodels, runner, strategies as S, sut
+from .. import fuzz_target, cases, common, env, oracles, preds, refmodels, runner, strategies as S, sut
 from ..runner import Failure, Leg, Result
 
 PROP = "C02"
@@ -184,6 +184,7 @@ def legs(tier):
             strategy=deep_cases(), n_quick=1600, n_thorough=40000, valid=valid_deep, floor=0.3),
         Leg("known-rnp>=6", evaluate, "rnp with 6-7 bins: the region of the recorded known finding",
             strategy=rnp_known_region(), n_quick=40, n_thorough=400, shards=1, valid=cases.valid_partition_case),
+        fuzz_target.fuzz_leg(PROP, 60000, evaluate, valid_deep),
     ]
 
 
